@@ -299,6 +299,47 @@ def storeWhile (p : UInt8 → Bool) : Nat → Ascii → Status → UInt8 → Byt
 
 def fuelOf (a : Ascii) : Nat := a.file.size + 2
 
+/-! `header_fasta()` is written in stages (the same statements in the same order; each stage holds at most two of the C loops,
+    which keeps the block-size-independence proof of every stage small — `Sqio/Sim.lean`). -/
+
+/-- stage 5: skip to the end of the header line (`hoff`), past the end-of-line characters (`doff`), reset the line-geometry
+    bookkeeping of the record -/
+def hfEnd (a : Ascii) (sq : Sq) (st : Status) (c : UInt8) : Ascii × Sq × Status :=
+  let r1 := skipWhile (fun c => c != chNl && c != chCr) (fuelOf a) a st c
+  let sq := { sq with hoff := r1.1.boff + r1.1.bpos }
+  let r2 := skipWhile (fun c => c == chNl || c == chCr) (fuelOf r1.1) r1.1 r1.2.1 r1.2.2
+  if r2.2.1 == .fault then (r2.1, sq, .fault) else
+  if r2.2.1 != .ok && r2.2.1 != .eof then (r2.1.fail, sq, .eformat) else
+  let sq := { sq with doff := r2.1.boff + r2.1.bpos }
+  ({ r2.1 with trk := { r2.1.trk with prvrpl := -1, prvbpl := -1, currpl := 0, curbpl := 0 }, linenumber := r2.1.linenumber + 1 }, sq, .ok)
+
+/-- stage 4: skip blanks, store the description (end-of-line or ctrl-A delimited) -/
+def hfDesc (a : Ascii) (sq : Sq) (st : Status) (c : UInt8) : Ascii × Sq × Status :=
+  let r1 := skipWhile isBlankTab (fuelOf a) a st c
+  let r2 := storeWhile (fun c => c != chNl && c != chCr && c != 1) (fuelOf r1.1) r1.1 r1.2.1 r1.2.2 #[] sq.dalloc
+  if r2.2.1 == .fault then (r2.1, sq, .fault) else
+  if !(r2.2.2.2.1.size < r2.2.2.2.2) then (r2.1, sq, .fault) else
+  hfEnd r2.1 { sq with desc := r2.2.2.2.1, dalloc := r2.2.2.2.2 } r2.2.1 r2.2.2.1
+
+/-- stage 3: skip blanks after `>`, store the name (space delimited) -/
+def hfName (a : Ascii) (sq : Sq) (st : Status) (c : UInt8) : Ascii × Sq × Status :=
+  let r1 := skipWhile isBlankTab (fuelOf a) a st c
+  let r2 := storeWhile (fun c => !isSpace c) (fuelOf r1.1) r1.1 r1.2.1 r1.2.2 #[] sq.nalloc
+  if r2.2.1 == .fault then (r2.1, sq, .fault) else
+  if r2.2.2.2.1.size == 0 then (r2.1.fail, sq, .eformat) else
+  if !(r2.2.2.2.1.size < r2.2.2.2.2) then (r2.1, sq, .fault) else
+  hfDesc r2.1 { sq with name := r2.2.2.2.1, nalloc := r2.2.2.2.2 } r2.2.1 r2.2.2.1
+
+/-- stage 2: after the leading white space: accept the `>` (`roff`), take the next character -/
+def hfGt (a : Ascii) (sq : Sq) (st : Status) (c : UInt8) : Ascii × Sq × Status :=
+  if st == .eof then (a, sq, .eof) else
+  if st == .ok && c != chGt then (a.fail, sq, .eformat) else
+  if st != .ok && c != chGt then (a.fail, sq, .eformat) else
+  -- here c == '>' (status may be a fault that happened while c was already '>': propagate)
+  if st != .ok then (a, sq, st) else
+  let r := nextchar a c
+  hfName r.1 { sq with roff := a.boff + a.bpos } r.2.1 r.2.2
+
 /-- `header_fasta()` -/
 def headerFasta (a : Ascii) (sq : Sq) : Ascii × Sq × Status :=
   let (a, st0) := if a.nc == a.bpos then loadbuf a else (a, .ok)
@@ -306,33 +347,8 @@ def headerFasta (a : Ascii) (sq : Sq) : Ascii × Sq × Status :=
   match a.bufGet a.bpos with
   | none => (a, sq, .fault)
   | some c =>
-  let (a, st, c) := skipWhile isSpace (fuelOf a) a .ok c
-  if st == .eof then (a, sq, .eof) else
-  if st == .ok && c != chGt then (a.fail, sq, .eformat) else
-  if st != .ok && c != chGt then (a.fail, sq, .eformat) else
-  -- here c == '>' (status may be a fault that happened while c was already '>': propagate)
-  if st != .ok then (a, sq, st) else
-  let sq := { sq with roff := a.boff + a.bpos }
-  let (a, st, c) := nextchar a c
-  let (a, st, c) := skipWhile isBlankTab (fuelOf a) a st c
-  let (a, st, c, name, nalloc) := storeWhile (fun c => !isSpace c) (fuelOf a) a st c #[] sq.nalloc
-  if st == .fault then (a, sq, .fault) else
-  if name.size == 0 then (a.fail, sq, .eformat) else
-  if !(name.size < nalloc) then (a, sq, .fault) else
-  let sq := { sq with name := name, nalloc := nalloc }
-  let (a, st, c) := skipWhile isBlankTab (fuelOf a) a st c
-  let (a, st, c, desc, dalloc) := storeWhile (fun c => c != chNl && c != chCr && c != 1) (fuelOf a) a st c #[] sq.dalloc
-  if st == .fault then (a, sq, .fault) else
-  if !(desc.size < dalloc) then (a, sq, .fault) else
-  let sq := { sq with desc := desc, dalloc := dalloc }
-  let (a, st, c) := skipWhile (fun c => c != chNl && c != chCr) (fuelOf a) a st c
-  let sq := { sq with hoff := a.boff + a.bpos }
-  let (a, st, _) := skipWhile (fun c => c == chNl || c == chCr) (fuelOf a) a st c
-  if st == .fault then (a, sq, .fault) else
-  if st != .ok && st != .eof then (a.fail, sq, .eformat) else
-  let sq := { sq with doff := a.boff + a.bpos }
-  let a := { a with trk := { a.trk with prvrpl := -1, prvbpl := -1, currpl := 0, curbpl := 0 }, linenumber := a.linenumber + 1 }
-  (a, sq, .ok)
+  let r := skipWhile isSpace (fuelOf a) a .ok c
+  hfGt r.1 sq r.2.1 r.2.2
 
 /-- `skip_fasta()` -/
 def skipFasta (a : Ascii) (sq : Sq) : Ascii × Sq × Status :=
@@ -475,19 +491,20 @@ def headerGenbank (parse : Bool) (a : Ascii) (sq : Sq) : Ascii × Sq × Status :
   if st != .ok then (a.fail, sq, .eformat) else
   (a, { sq with hoff := a.boff - 1, doff := a.boff }, .ok)
 
-/-- `end_daemon()` -/
-def endDaemonSkip (p : UInt8 → Bool) : Nat → Ascii → UInt8 → Ascii × UInt8 × Bool
-  | 0, a, c => (a, c, false)
-  | fuel + 1, a, c =>
-    if p c && a.bpos < a.nc then
+/-- `end_daemon()`'s two skipping loops (after bb4a275): `while (bpos < nc && p(buf[bpos])) bpos++` -/
+def endDaemonSkip (p : UInt8 → Bool) : Nat → Ascii → Ascii × Bool
+  | 0, a => (a, false)
+  | fuel + 1, a =>
+    if a.bpos < a.nc then
       match a.bufGet a.bpos with
-      | none => (a, c, false)
-      | some x => endDaemonSkip p fuel { a with bpos := a.bpos + 1 } x
-    else (a, c, true)
+      | none => (a, false)
+      | some x => if p x then endDaemonSkip p fuel { a with bpos := a.bpos + 1 } else (a, true)
+    else (a, true)
 
+/-- `end_daemon()`: the `//` terminator, the rest of its line, and the end-of-line characters; stops ON the first character after them -/
 def endDaemon (a : Ascii) (sq : Sq) : Ascii × Sq × Status :=
   if a.nc < 3 then (a.fail, sq, .eformat) else
-  if a.bpos + 2 > a.nc then (a.fail, sq, .eformat) else       -- both terminator characters must lie in the buffer (repair of end_daemon)
+  if a.bpos + 2 > a.nc then (a.fail, sq, .eformat) else       -- both terminator characters must lie in the buffer (b20bbb4)
   match a.bufGet a.bpos with
   | none => (a, sq, .fault)
   | some c1 =>
@@ -498,9 +515,9 @@ def endDaemon (a : Ascii) (sq : Sq) : Ascii × Sq × Status :=
   | some c2 =>
   let a := { a with bpos := a.bpos + 1 }
   if c2 != 47 then (a.fail, sq, .eformat) else
-  let (a, c, ok1) := endDaemonSkip (fun c => c != chNl && c != chCr) (a.nc + 1) a c2
+  let (a, ok1) := endDaemonSkip (fun c => c != chNl && c != chCr) (a.nc + 1) a
   if !ok1 then (a, sq, .fault) else
-  let (a, _, ok2) := endDaemonSkip (fun c => c == chNl || c == chCr) (a.nc + 1) a c
+  let (a, ok2) := endDaemonSkip (fun c => c == chNl || c == chCr) (a.nc + 1) a
   if !ok2 then (a, sq, .fault) else (a, sq, .ok)
 
 /-- `fileheader_hmmpgmd()` -/
